@@ -330,6 +330,9 @@ func (g *Gen) trField(e *CField, env *Env) (string, VType) {
 	}
 	for i := 0; i < s.NumFields(); i++ {
 		if s.Field(i).Name() == e.Name {
+			if k, esc := g.eng.escapingField(st, i); esc {
+				return fmt.Sprintf("(select %s (paddr %s %d))", g.heapGet(env.heap, g.cellRegion(s.Field(i).Type())), x, k), VType{Go: s.Field(i).Type()}
+			}
 			r := g.fieldRegion(st, i)
 			return fmt.Sprintf("(select %s %s)", g.heapGet(env.heap, r), x), VType{Go: s.Field(i).Type()}
 		}
@@ -607,12 +610,19 @@ func (g *Gen) trCall(e *CCall, env *Env) (string, VType) {
 		if xt.sort() == "Slice" {
 			ref = fmt.Sprintf("(s-arr %s)", x)
 		}
-		return fmt.Sprintf("(and (not (= %s 0)) (not (select %s %s)) (select %s %s))", ref, g.heapGet(env.old, g.allocRegion()), ref, g.heapGet(env.heap, g.allocRegion()), ref), goBool
+		ref0 := ref
+		if xt.Go != nil {
+			ref = g.ownT(xt.Go, ref)
+		}
+		return fmt.Sprintf("(and (not (= %s 0)) (not (select %s %s)) (select %s %s))", ref0, g.heapGet(env.old, g.allocRegion()), ref, g.heapGet(env.heap, g.allocRegion()), ref), goBool
 	case "allocated":
 		x, xt := g.tr(e.Args[0], env)
 		ref := x
 		if xt.sort() == "Slice" {
 			ref = fmt.Sprintf("(s-arr %s)", x)
+		}
+		if xt.Go != nil {
+			ref = g.ownT(xt.Go, ref)
 		}
 		return fmt.Sprintf("(select %s %s)", g.heapGet(env.heap, g.allocRegion()), ref), goBool
 	case "upd":
